@@ -86,6 +86,45 @@ net('mux-reg', {'a': 2, 'sel': 1, 'q': 2, 'nq': 2, 'd': 2, 'o': 2},
      ('sub', lambda s, W: Sub(s, 'sub', W['d'], W['q'], W['o']))], ['a', 'sel'])
 
 
+def random_net(seed):
+    """seeded acyclic netlist of 4..6 leaves over 2-bit wires (feedback only through a Reg)"""
+    rnd = random.Random('net/%d' % seed)
+    n = rnd.randint(4, 6)
+    wires = {'a': 2, 'b': 2}
+    ins = ['a', 'b']
+    avail = ['a', 'b']
+    leaves = []
+    has_reg = rnd.random() < 0.5
+    if has_reg:
+        wires['q'] = 2
+        avail.append('q')
+    for k in range(n - (1 if has_reg else 0)):
+        o = 'w%d' % k
+        wires[o] = 2
+        kind = rnd.choice(['not', 'buf', 'and', 'or', 'sub', 'mux'])
+        x, y = rnd.choice(avail), rnd.choice(avail)
+        nm = 'l%d' % k
+        if kind == 'not':
+            leaves.append((nm, lambda s, W, nm=nm, x=x, o=o: Not(s, nm, W[x], W[o])))
+        elif kind == 'buf':
+            leaves.append((nm, lambda s, W, nm=nm, x=x, o=o: Buf(s, nm, W[x], W[o])))
+        elif kind == 'and':
+            leaves.append((nm, lambda s, W, nm=nm, x=x, y=y, o=o: And2(s, nm, W[x], W[y], W[o])))
+        elif kind == 'or':
+            leaves.append((nm, lambda s, W, nm=nm, x=x, y=y, o=o: Or2(s, nm, W[x], W[y], W[o])))
+        elif kind == 'sub':
+            leaves.append((nm, lambda s, W, nm=nm, x=x, y=y, o=o: Sub(s, nm, W[x], W[y], W[o])))
+        else:
+            z = rnd.choice(avail)
+            leaves.append((nm, lambda s, W, nm=nm, x=x, y=y, z=z, o=o: Mux2(s, nm, W[z], W[x], W[y], W[o])))
+        avail.append(o)
+    if has_reg:
+        d = rnd.choice([w for w in avail if w.startswith('w')])
+        leaves.append(('reg', lambda s, W, d=d: Reg(s, 'reg', W[d], W['q'])))
+    rnd.shuffle(leaves)
+    return wires, leaves, ins
+
+
 def build_net(name, order, late=0):
     """instantiate leaves in the given order; the last `late` leaves are added after getSimulator()"""
     wires, leaves, ins = NETS[name]
@@ -499,6 +538,8 @@ def tasks_for(tier):
     quick = tier == 'quick'
     tasks = []
     rnd = random.Random(11)
+    for k in range(4 if quick else 60):
+        NETS['random#%d' % k] = random_net(k)
     for name, (wires, leaves, ins) in NETS.items():
         n = len(leaves)
         perms = list(itertools.permutations(range(n)))
@@ -532,7 +573,7 @@ def main(argv=None):
         technique='symbolic execution of the real topologicalSort/propagateAll/clk on symbolic wires; per leaf a QF_BV fixpoint query and per wire an equality query against the canonical construction order',
         assumptions=['Latch and AsynchronousMemory are stateful by the solver-decided classification and are excluded from the fixpoint clause',
                      'rejection clause and the deep-chain replay carry no data and are executed concretely'],
-        bounds={'netlists': sorted(NETS), 'orders': 'all n! constructor orders for n <= 5 leaves (quick: 130 seeded of the 720 for n = 6; thorough all), 1-2 late additions',
+        bounds={'netlists': sorted(NETS) + ['random#k: seeded acyclic netlists of 4..6 leaves (4 quick / 60 thorough)'], 'orders': 'all n! constructor orders for n <= 5 leaves (quick: 130 seeded of the 720 for n = 6; thorough all), 1-2 late additions',
                 'library blocks': 'recursively shuffled children, 4/60 seeds (FPAdder_SP 2/12)', 'cycles': '2 clk() calls after creation'},
         trusted_base=['z3', 'symx operator semantics and fork-and-merge shell'], task_limit=600)
 
